@@ -48,7 +48,7 @@ CONTRACTS = {
                     'forall(lambda u, v: evar(result.gid, u, v) == evar(result.gid, v, u), lambda u, v: evar(result.gid, u, v))']},
     (V_, 'EdgeGroup.__call__'): {
         'assumed': 'group call contract (C11): e(u, v) is the variable of the edge {u, v}',
-        'params': {}, 'requires': ['len(index) == 2'], 'returns_expr': 'evar(self.gid, index[0], index[1])'},
+        'params': {}, 'supports': ['len(index) == 2'], 'returns_expr': 'evar(self.gid, index[0], index[1])'},
     (F_, 'FormulaT.add_parity'): {
         'assumed': 'interface meaning of add_parity (proved for both classes: C04)',
         'params': {'lits': 'iseq', 'constant': 'int', 'check': 'bool'}, 'ghost_params': {'a': 'asg'},
@@ -90,7 +90,7 @@ CONTRACTS = {
         'params': {'u': 'int'}, 'raises': {'ValueError': 'not (1 <= u and u <= self.n)'}, 'returns_expr': 'ilen(nbrs(self.gid, u))'},
     (V_, 'EdgeGroup.indices'): {
         'assumed': 'index enumeration of the edge group (C11): indices(v, None) and indices(None, v) list the edges at v as sorted pairs, in neighbour order',
-        'params': {}, 'requires': ['len(pattern) == 2', '(pattern[0] is None) != (pattern[1] is None)', '1 <= nonnone(pattern)', 'nonnone(pattern) <= self.n'],
+        'params': {}, 'supports': ['len(pattern) == 2', '(pattern[0] is None) != (pattern[1] is None)'], 'requires': ['1 <= nonnone(pattern)', 'nonnone(pattern) <= self.n'],
         'returns_expr': 'pairsof(lam1(lambda j: zmin(nonnone(pattern), iget(nbrs(self.graph, nonnone(pattern)), j))), '
                         'lam1(lambda j: zmax(nonnone(pattern), iget(nbrs(self.graph, nonnone(pattern)), j))), ilen(nbrs(self.graph, nonnone(pattern))))'},
     (F_, 'FormulaT.cardinality_eq'): {
